@@ -97,7 +97,7 @@ def ensure_facts(mode='lib', repo=None, verbose=False):
     assert mode in ('lib', 'full')
     th = tree_hash(repo)
     os.makedirs(CACHE, exist_ok=True)
-    lock = open(os.path.join(CACHE, '.lock'), 'w')
+    lock = open(os.path.join(CACHE, '.lock-%s' % th), 'w')
     fcntl.flock(lock, fcntl.LOCK_EX)
     try:
         for m in ([mode, 'full'] if mode == 'lib' else ['full']):
